@@ -8,6 +8,19 @@ ID = "C02"
 PROPS_FILE = "Props/C02.v"
 COQ_TARGETS = ["Harness/H02.vo"]
 ALLOWED_AXIOMS = []
+# second tie (translator): coq/Gen/Core.v is regenerated from the source text of C.REPO on every run and
+# coq/Tie/T02.v proves generated definition = hand model (harness/translate/py2coq_core.py)
+EXTRA_PROPS = ["Tie/T02.v"]
+
+
+def prebuild(ctx):
+    import os
+    import sys
+    sys.path.insert(0, os.path.join(C.VERIF, "harness", "translate"))
+    import py2coq_core
+    py2coq_core.prebuild(ctx, C, ["ParetoDominance.compare", "AttributeDominance.compare"])
+
+
 META = {
     "level_text": "Machine-checked proof (Coq) that the literal model of ParetoDominance.compare equals the constraint-first Pareto order "
                   "for every number of objectives, direction vector and value (incl. +-inf), with antisymmetry, irreflexivity/twins and transitivity; "
